@@ -40,6 +40,18 @@ def run(ctx):
         g = gen_xml.XGen(rng, anomalies=0.15, hostile=0.3, images=(i % 4 == 0), dangling=0.0)
         pkg = g.package()
         sm, ip, ir, con = MAPS[i % len(MAPS)]
+        if ir:
+            # a run under a `!` mapping that holds a note reference, followed by a live run with another: the ignored run takes its
+            # marker AND its note with it, and the live marker keeps the number reading order gives it
+            from mammoth.docx.xmlparser import element as X, text as XT
+            ids = [int(n.attributes.get("w:id", "0")) for n in (pkg.footnotes or [])]
+            a, b = str(max(ids + [1]) + 1), str(max(ids + [1]) + 2)
+            pkg.footnotes = list(pkg.footnotes or []) + [
+                X("w:footnote", {"w:id": a}, [X("w:p", {}, [X("w:r", {}, [X("w:t", {}, [XT("note of the ignored run")])])])]),
+                X("w:footnote", {"w:id": b}, [X("w:p", {}, [X("w:r", {}, [X("w:t", {}, [XT("live note")])])])])]
+            pkg.body.append(X("w:p", {}, [
+                X("w:r", {}, [X("w:rPr", {}, [X("w:rStyle", {"w:val": ir[0]})]), X("w:t", {}, [XT("ignored")]), X("w:footnoteReference", {"w:id": a})]),
+                X("w:r", {}, [X("w:t", {}, [XT("visible")]), X("w:footnoteReference", {"w:id": b})])]))
         opts = {"style_map": sm, "include_default_style_map": rng.random() < 0.8, "include_embedded_style_map": True,
                 "ignore_empty_paragraphs": rng.random() < 0.7, "id_prefix": rng.choice([None, "p-"]), "conv": "no_open"}
         data, parts = B.build(pkg)
